@@ -3,6 +3,6 @@ NEXT MCNext
 CONSTANTS
   HandlerStacks <- LStacks2
   AddShapes <- BothShape
-  MaxAdds = 1
+  MaxAdds = 2
   MaxCycles = 2
 INVARIANT EmitLast
